@@ -551,7 +551,64 @@ func runC16(r *Run) {
 				}
 			}
 		})
-		r.Check(okRO, "R3", fnID(rs)+"#write-protection", P.Pos(fnPos(rs)), "transactions are rejected in read-only frames", "RunSetup no longer rejects transaction methods in a read-only (STATICCALL) frame")
+		// as a path rule: on the readOnly edge the classification callback is consulted before any success exit, and
+		// its true edge (the method is a transaction) reaches no success exit
+		var isTxParam *ssa.Parameter
+		for _, p := range rs.Params {
+			if _, isSig := p.Type().Underlying().(*types.Signature); isSig && p.Name() == "isTransaction" {
+				isTxParam = p
+			}
+		}
+		roEdges := paramBoolEdges(rs, "readOnly")
+		okPath := isTxParam != nil && len(roEdges) > 0
+		var witRO []string
+		if okPath {
+			isClassify := func(in ssa.Instruction) bool {
+				c, ok := in.(ssa.CallInstruction)
+				return ok && c.Common().Value == ssa.Value(isTxParam)
+			}
+			for _, e := range roEdges {
+				if w := (PathQuery{Fn: rs, StartBlock: e.From.Succs[e.Succ], Block: isClassify, Target: isSuccessExit}).Search(); w != nil {
+					okPath = false
+					witRO = P.witness(w)
+				}
+			}
+			txTrue, _ := guardPassEdges(rs, func(cond ssa.Value) (bool, bool) {
+				c, ok := cond.(*ssa.Call)
+				return true, ok && c.Call.Value == ssa.Value(isTxParam)
+			})
+			if len(txTrue) == 0 {
+				okPath = false
+			}
+			for _, e := range txTrue {
+				// the classification is only evaluated on the readOnly side, so its true edge is "read-only frame, transaction method"
+				if w := (PathQuery{Fn: rs, StartBlock: e.From.Succs[e.Succ], Target: isSuccessExit}).Search(); w != nil {
+					okPath = false
+					witRO = P.witness(w)
+				}
+			}
+		}
+		r.Check(okRO && okPath, "R3", fnID(rs)+"#write-protection", P.Pos(fnPos(rs)), "in a read-only frame the method is classified before any success exit and a transaction method fails", "RunSetup can succeed for a transaction method in a read-only (STATICCALL) frame: a static call changes Cosmos state", witRO...)
+		// every wired stateful precompile hands RunSetup its own IsTransaction
+		for _, m := range wiredPrecompiles(r) {
+			if !m.Stateful || m.Run == nil {
+				continue
+			}
+			okOwn := false
+			eachCall(m.Run, func(ci CallInfo) {
+				if ci.Name != "RunSetup" {
+					return
+				}
+				for _, a := range ci.Instr.Common().Args {
+					if mc, ok := a.(*ssa.MakeClosure); ok {
+						if f, ok := mc.Fn.(*ssa.Function); ok && strings.Contains(f.Name(), "IsTransaction") && m.IsTxFn != nil && strings.Contains(f.String(), m.Rel) {
+							okOwn = true
+						}
+					}
+				}
+			})
+			r.Check(okOwn, "R3", fnID(m.Run)+"#own-classification", P.Pos(fnPos(m.Run)), "Run hands RunSetup the precompile's own IsTransaction", "Run does not hand RunSetup this precompile's own IsTransaction: the write protection of read-only frames is decided by another classification")
+		}
 	} else {
 		r.Bad("R3", "anchor/RunSetup", "", "precompiles/common.Precompile.RunSetup not found")
 	}
